@@ -126,6 +126,14 @@ fn build_case<K: TestKey>(p: &Params, id: u64) -> Case<K> {
         if class == "checkpoint-shared" && !ops.iter().any(|o| matches!(o, Op::Checkpoint)) {
             ops.insert(ops.len() / 2, Op::Checkpoint);
         }
+        if p.mode == "power" {
+            // C09 speaks about synchronous mode only: never switch to Async at a reopen
+            for op in ops.iter_mut() {
+                if let Op::Reopen { flip_sync, .. } = op {
+                    *flip_sync = false;
+                }
+            }
+        }
     }
     // continuation: touch the same keys, checkpoint, overwrite, remove
     let mut cont: Vec<Op<K>> = Vec::new();
